@@ -29,9 +29,9 @@ func manifestMain() {
 			"level_claimed": map[string]any{
 				"category":   "other",
 				"text":       "Static analysis of the resolved program (go/types + go/ssa): structural necessary conditions of the property, each decided on every path / writer / call site / table entry in scope. Decided: " + m.Explanation,
-				"design_ref": "DESIGN.md section 4, " + id,
+				"design_ref": "DESIGN.md section 4 (" + id + ") and section 10 (as built)",
 			},
-			"level_note": "Decides the structural part named above and not the behaviour as a whole. Not decided: " + m.NotDecided + " Trusted base: Go type checker, go/ssa (x/tools v0.29.0), the gc prove pass where bounds are involved, the checker's library-postcondition table, frozen reference data under /verif/ref.",
+			"level_note": "Decides the structural part named above and not the behaviour as a whole. Not decided: " + m.NotDecided + " Trusted base: Go type checker, go/ssa (x/tools v0.29.0), the gc prove pass where bounds are involved, the checker's library-postcondition table, frozen reference data under /verif/ref (UAPI constants, sockaddr layout, known function and type lists used by the normalisation layer).",
 		})
 	}
 	var na []map[string]string
@@ -54,11 +54,11 @@ func manifestMain() {
 		},
 		"engines": []map[string]any{{
 			"name": "vcheck", "path": "/verif/checker", "serves_properties": ids,
-			"kind_free_text": "repository-specific static analyser over go/packages + go/types + go/ssa (x/tools v0.29.0, vendored): guard dominance, path conditions, writer/caller census, lockset, value origin, constant/table evaluation against frozen UAPI data, bounds obligations",
+			"kind_free_text": "repository-specific static analyser over go/packages + go/types + go/ssa (x/tools v0.29.0, vendored): source-level normalisation against a frozen reference of the tree (rename pairing, statement-level inlining of new helpers with exact positions), guard dominance, path conditions with phi resolution, writer/caller census, lockset with read/write classes, value origin, constant/table evaluation against frozen UAPI data, linear-arithmetic bounds prover (Fourier-Motzkin, induction) over the sites the compiler cannot prove",
 		}},
 		"checks":         checks,
 		"not_applicable": na,
-		"notes":          "All claims are at level 'other': each check decides named structural clauses of its property on the current source of /repo and reports a construct (file:line, function, path, table entry) as the violation. See DESIGN.md sections 4-6. known_findings.json lists genuine defects (open or fixed).",
+		"notes":          "All claims are at level 'other': each check decides named structural clauses of its property on the current source of /repo and reports a construct (file:line, function, path, table entry) as the violation. See DESIGN.md sections 4-6 and 10. The checker is tested both ways on every thorough run: 80 seeded breaking changes under /verif/seeded must be detected, 96 behaviour-preserving refactorings under /verif/benign must stay silent. known_findings.json lists genuine defects (open or fixed).",
 	}
 	if na == nil {
 		doc["not_applicable"] = []map[string]string{}
